@@ -173,17 +173,19 @@ static void t_wc1(wchar_t wc, size_t dmax, int dnull, int which) {
 
 /* long conversions into a destination whose size the compiler knows (the limit of such a call is the documented RSIZE_MAX_STR / RSIZE_MAX_WSTR,
  * not a smaller internal one): n single-byte or two-byte characters, results compared with the C library's */
+static int g_long_unknown;      /* the object size is not passed: the documented limit of the char destinations is RSIZE_MAX_STR all the same */
 static void t_long(int which, size_t n, int twobyte) {
     static wchar_t w[4100], wout[4100]; static char mb[8300], out[8300]; char cs[200], cb[64];
     if (twobyte && MB_CUR_MAX < 2) return;
     static const char *FN[] = { "wcstombs_s", "wcsrtombs_s", "mbstowcs_s", "mbsrtowcs_s" };
     for (size_t i = 0; i < n; i++) w[i] = twobyte ? 0xe9 : 'a' + i % 26; w[n] = 0;
     size_t nb = wcstombs(mb, w, sizeof mb); if (nb == (size_t)-1) return;
-    snprintf(cs, sizeof cs, "%s %s long %zu %d %d 0", loc, FN[which], n, twobyte, which); snprintf(cb, sizeof cb, "long,%s", twobyte ? "two-byte" : "single-byte");
+    snprintf(cs, sizeof cs, "%s %s long %zu %d %d %d", loc, FN[which], n, twobyte, which, g_long_unknown); snprintf(cb, sizeof cb, "long,%s%s", twobyte ? "two-byte" : "single-byte", g_long_unknown ? ",object-size-unknown" : "");
+    if (g_long_unknown && which >= 2) return;
     size_t ret = 0x7777; int rc = 0, faulted = 0; h_n = 0; errno = 0; n_calls++; mbstate_t ps; memset(&ps, 0, sizeof ps);
     if (which < 2) {
         size_t dmax = nb + 1; if (dmax > 4096) return; memset(out, 0x5a, sizeof out); const wchar_t *sp = w;
-        if (sigsetjmp(jb, 1) == 0) { armed = 1; rc = which ? f_wcsrtombs(&ret, out, dmax, &sp, dmax, &ps, dmax) : f_wcstombs(&ret, out, dmax, w, dmax, dmax); armed = 0; } else faulted = 1;
+        if (sigsetjmp(jb, 1) == 0) { armed = 1; rc = which ? f_wcsrtombs(&ret, out, dmax, &sp, dmax, &ps, g_long_unknown ? BOSU : dmax) : f_wcstombs(&ret, out, dmax, w, dmax, g_long_unknown ? BOSU : dmax); armed = 0; } else faulted = 1;
         if (verbose) printf("%s: %zu characters -> %zu bytes, dmax=len=object size=%zu: rc=%d *retvalp=%zu fault=%d handler=%d\n", FN[which], n, nb, dmax, rc, ret, faulted, h_n);
         if (faulted) { report(FN[which], "crash", cb, cs); return; }
         if (rc != 0 || ret != nb || memcmp(out, mb, nb + 1)) report(FN[which], rc ? "failure-on-valid" : "wrong-result", cb, cs);
@@ -229,7 +231,7 @@ int main(int argc, char **argv) {
     static const wchar_t WC[] = { L'a', 0xe9, 0x20ac, 0x1f600, 0xd800, 0x110000 };
     if (replay) {
         verbose = 1; const char *fn = argv[3]; size_t dmax = atol(argv[5]), len = atol(argv[6]); int dnull = atoi(argv[7]); int extra = argc > 8 ? atoi(argv[8]) : 0; g_unterm_mb = argc > 9 ? atoi(argv[9]) : 0;
-        if (!strcmp(argv[4], "long")) { t_long(atoi(argv[7]), atol(argv[5]), atoi(argv[6])); if (nsig) { printf("VERDICT violation %s\n", sigs[0]); return 1; } printf("VERDICT ok\n"); return 0; }
+        if (!strcmp(argv[4], "long")) { g_long_unknown = argc > 8 ? atoi(argv[8]) : 0; t_long(atoi(argv[7]), atol(argv[5]), atoi(argv[6])); if (nsig) { printf("VERDICT violation %s\n", sigs[0]); return 1; } printf("VERDICT ok\n"); return 0; }
         if (!strncmp(fn, "mb", 2)) { char s[64]; int n = 0; if (strcmp(argv[4], "-")) for (; argv[4][2 * n]; n++) { unsigned v; sscanf(argv[4] + 2 * n, "%2x", &v); s[n] = v; } s[n] = 0; t_mbstowcs(s, dmax, len, dnull, !strcmp(fn, "mbsrtowcs_s"), extra); }
         else { wchar_t w[32]; int n = 0; char *t = strdup(argv[4]); if (strcmp(t, "-")) for (char *p = strtok(t, "."); p; p = strtok(NULL, ".")) w[n++] = strtoul(p, 0, 16); w[n] = 0;
                if (!strcmp(fn, "wcrtomb_s")) t_wc1(w[0], dmax, dnull, 0); else if (!strcmp(fn, "wctomb_s")) t_wc1(w[0], dmax, dnull, 1); else t_wcstombs(w, dmax, len, dnull, !strcmp(fn, "wcsrtombs_s"), extra); }
@@ -296,7 +298,7 @@ int main(int argc, char **argv) {
                 size_t dms[5] = { nb > 1 ? nb - 1 : 1, nb, nb + 1, 16, 20 };
                 for (int di = 0; di < 5; di++) for (int r = 0; r < 2; r++) { t_wcstombs(w, dms[di], dms[di] + 1, 0, r, 0); t_wcstombs(w, dms[di], nb, 0, r, 0); } } } }
     if (shard == 0) { static const size_t LN[] = { 600, 1000, 1023, 1024, 1500, 2047, 2048, 4000, 4095 };
-        for (int which = 0; which < 4; which++) for (int li = 0; li < 9; li++) for (int tb = 0; tb < 2; tb++) t_long(which, LN[li], tb); }
+        for (g_long_unknown = 0; g_long_unknown < 2; g_long_unknown++) for (int which = 0; which < 4; which++) for (int li = 0; li < 9; li++) for (int tb = 0; tb < 2; tb++) t_long(which, LN[li], tb); g_long_unknown = 0; }
     for (int i = 0; i < nsig; i++) printf("{\"t\":\"viol\",\"sig\":\"%s\",\"n\":%ld,\"case\":\"%s\"}\n", sigs[i], sigcnt[i], sigcase[i]);
     printf("{\"t\":\"stat\",\"locale\":\"%s\",\"calls\":%ld,\"faulted_left_to_C01\":%ld,\"violating\":%ld}\n", loc, n_calls, n_fault, n_viol);
     return 0;
